@@ -36,6 +36,7 @@ def run(rep, progs, tier):
     rep.rule("C04.lossless-queue", "events are never handed over with a lossy send (try_send / broadcast / watch)")
     rep.rule("C04.cancel-safe", "no droppable future holds consumed input across a suspension")
     rep.trusted = ["rustc MIR construction and coroutine witness computation", "mpdfacts exporter", "tokio mpsc delivery and documented cancel safety of recv"]
+    rep.rule("C04.names.holes", "imported from C19 when Subsystem::from_frame reaches the frame's field iterator: the iterator steps over every removed field")
     rep.rule("C04.names", "imported from C20 (owner of the name tables): every Subsystem carries its protocol name — as_str / from_frame tables "
              "complete, inverse, in the MPD vocabulary; and from C03: the field value reaches the event as captured")
     for cfg, prog in progs.items():
@@ -53,6 +54,20 @@ def run(rep, progs, tier):
         READS.bind(prog)
         with rep.importing("C02.persist", "C04.segmentation.persist"):
             persist_rule(rep, prog, cfg)
+        # "call this until it returns None": each call removes one `changed` field and leaves a hole in the frame.  When the
+        # decoder looks the next one up through the frame's field iterator (Frame::find / fields), that iterator has to step over
+        # every hole (C19's rule) or the second and later subsystems of one reply are lost.  Imported only when the call graph
+        # says the decoder walks the frame that way (today it uses Frame::get, which scans the slots itself).
+        from ..callgraph import CallGraph
+        cg = CallGraph(prog)
+        roots = [k for k, b in prog.bodies.items() if norm(b.name).endswith("client::Subsystem::from_frame")]
+        walkers = sorted(norm(prog.bodies[x].name) for x in cg.reachable(roots)
+                         if norm(prog.bodies[x].name).endswith(("::Frame::fields", "::Frame::into_iter")))
+        rep.count("from_frame_walks_frame_iterator_" + cfg, len(walkers))
+        if walkers:
+            from .C19 import hole_skip_rule
+            with rep.importing("C19.delegation", "C04.names.holes"):
+                hole_skip_rule(rep, prog, cfg)
 
 
 def one(rep, prog, cfg):
@@ -200,7 +215,8 @@ def one(rep, prog, cfg):
             from .C20 import static_name_table
             _, pbody = static_name_table(prog, "client::Subsystem")
         if pbody is not None:
-            fallback_verbatim(rep, "C04.verbatim", cfg + "/from_frame", pbody, "client::Subsystem", "Other", 2 if pbody.kind == "Closure" else 1)
+            fallback_verbatim(rep, "C04.verbatim", cfg + "/from_frame", pbody, "client::Subsystem", "Other", 2 if pbody.kind == "Closure" else 1,
+                              matched=[c["other"] for c in tables.str_compares(pbody)])
         else:
             rep.fail("C04.verbatim", cfg + "/from_frame", ff[0].loc(ff[0].span), "name table not found in from_frame")
     else:
